@@ -51,7 +51,7 @@ def _worker(args):
         multi = len({tuple(m) for m in j["e2n"]}) != len(j["e2n"])
         rng = random.Random(seed_ * 982451653 + base + k)
         # orderable labels: all ints or all strings; also ints whose set iteration order is not ascending
-        g = Gamma(*[("ints", "int"), ("str", "int"), ("descset", "int"), ("collide", "int")][(base + k) % 4])
+        g = Gamma(*[("ints", "int"), ("str", "int"), ("descset", "int"), ("collide", "int"), ("negint", "int")][(base + k) % 5])
         vname, emap = rng.choice(obscore.edge_id_variants(j, rng))
         H = obscore.realise(j, g, rng, shuffle=True, edge_id_map=emap)
         st, anom = hg.proj(H, g)
